@@ -69,14 +69,14 @@ class C06(Property):
                  'differential against CPython constant values (bit-exact floats, exact integers)')
     level_text = ('every run enumerates: every one-character escape x {str, bytes, raw, f-string}, all 256 \\xHH, all 1-3 digit octal escapes, all 65,536 \\uXXXX, '
                   '\\U boundaries, ~2000 (quick) \\N{name} escapes with version-stable names, all 25 prefix spellings x 4 quote styles, line-break forms; then '
-                  '~30k (quick) / 2M (thorough) random literals, concatenations and numbers (underscores, bases, exponents, boundary magnitudes), compared with '
+                  '~80k (quick) / 2M (thorough) random literals, concatenations and numbers (underscores, bases, exponents, boundary magnitudes), compared with '
                   'the value CPython computes, through parse() and through lex(), on the malachite and the num-bigint build')
     level_note = 'trusts CPython 3.11 literal evaluation; texts CPython rejects are outside this property (C04) and only counted'
     rule = ('enumerated escape tables + literal grammar (prefix x quotes x body pieces x concatenation) + number grammar; non-trivial = literal with an escape, '
             'a prefix, an underscore / exponent / base marker, or a concatenation; distinct by case hash')
 
     def budget(self, tier):
-        return 30000 if tier == 'quick' else 2000000
+        return 80000 if tier == 'quick' else 2000000
 
     # ---------------------------------------------------------------- enumerations
     def explicit_cases(self, ctx):
